@@ -257,13 +257,9 @@ def td_str(td, ctx):
 
 def local_date(ctx):
     """(Y, M, D) of the local clock: uninterpreted but tied to the local day number"""
-    c = getattr(ctx, "_clock", None)
-    if c is None:
-        c = {}
-        ctx._clock = c
+    clock(ctx, "local")
+    c = ctx._clock
     if "ldate" not in c:
-        clock(ctx, "local")
-        c = ctx._clock
         Y = z3.Int(fresh_name("LY"))
         M = z3.Int(fresh_name("LM"))
         D = z3.Int(fresh_name("LD"))
@@ -283,6 +279,7 @@ def m_time_strftime(ip, args, kw, ctx):
         def two(v):
             return [simp(v / 10 + 48), simp(v % 10 + 48)]
         ts = two(D) + [47] + two(M) + [47] + [simp(Y / 1000 + 48), simp((Y / 100) % 10 + 48), simp((Y / 10) % 10 + 48), simp(Y % 10 + 48)]
+        ctx._date_terms = ([t.get_id() if isz(t) else t for t in ts], (Y, M, D))
         return Seq('str', [Elems(ts)], tag=("DATE", Y, M, D))
     st = args[1]
     if not isinstance(st, StructTime):
@@ -416,7 +413,8 @@ def time_method(ip, o, name, args, kw, ctx):
         return NotImplemented
     if isinstance(o, SymTimedelta):
         if name == "total_seconds":
-            return z3.ToReal(zi(o.secs)) if isz(o.secs) else float(o.secs)
+            from .sym import Rat
+            return Rat(o.secs, 1) if isz(o.secs) else float(o.secs)
         if name == "__str__" or name == "__format__":
             return td_str(o, ctx)
         if name == "__binop__":
@@ -488,11 +486,6 @@ def time_method(ip, o, name, args, kw, ctx):
     return NotImplemented
 
 
-def timestr_concat(ip, a, b, ctx):
-    """recognises   DATE + ' ' + part0 + ':' + part1   (left-associated concatenation)"""
-    return NotImplemented
-
-
 class ConcatChain:
     """left-associated concatenation whose pieces include opaque TimeStr parts"""
     def __init__(self, pieces):
@@ -510,23 +503,23 @@ def chain_method(ip, o, name, args, kw, ctx):
     left, right = (other, o) if swapped else (o, other)
     lp = left.pieces if isinstance(left, ConcatChain) else [left]
     rp = right.pieces if isinstance(right, ConcatChain) else [right]
-    ch = ConcatChain(lp + rp)
-    return chain_normalise(ch, ctx)
+    for x in lp + rp:
+        if not isinstance(x, (str, Seq, TimeStrPart)):
+            _raise("TypeError", "can only concatenate str")
+    return chain_normalise(ConcatChain(lp + rp), ctx)
 
 
 def chain_normalise(ch, ctx):
+    """recognises  DATE ' ' part0 ':' part1  built by left-associated +"""
     p = ch.pieces
-    # DATE ' ' part0 ':' part1
     if len(p) == 4:
         a, b, c, d = p
         if isinstance(a, Seq) and isinstance(b, TimeStrPart) and c == ":" and isinstance(d, TimeStrPart) \
                 and b.index == 0 and d.index == 1 and b.ts is d.ts and a.fixed():
             ts = a.terms()
-            if a.segs and len(ts) == 11 and ts[10] == 32:
-                # leading 10 chars must be the tagged date
-                tag = getattr(ch, "date_tag", None)
-                if tag is not None:
-                    return DatedTimeStr(tag, b.ts)
+            dt = getattr(ctx, "_date_terms", None)
+            if dt is not None and len(ts) == 11 and ts[10] == 32 and [t.get_id() if isz(t) else t for t in ts[:10]] == dt[0]:
+                return DatedTimeStr(dt[1], b.ts)
     return ch
 
 
